@@ -70,8 +70,15 @@ var (
 	progress   int64 // unix nanos of the last completed case
 	curCase    atomic.Value
 	workerOut  *bufio.Writer
-	scratchTop = "/dev/shm"
+	scratchTop = scratchRoot()
 )
+
+func scratchRoot() string {
+	if fi, err := os.Stat("/dev/shm"); err == nil && fi.IsDir() {
+		return "/dev/shm"
+	}
+	return os.TempDir()
+}
 
 func newScratch() string {
 	scratchN++
@@ -112,6 +119,7 @@ func openWAL(path string, start bool) cs.WAL {
 func closeWAL(w cs.WAL) {
 	w.Stop() // OnStop: group.Stop (flush), group.Close
 	w.Group().Head.Close()
+	autofile.VerifRelease(w.Group())
 }
 
 // readGroup returns the files of the group at headPath in index order, the way readGroupInfo/filePathForIndex
@@ -167,6 +175,13 @@ func (c *collector) add(vs []viol, size int64, replay func() interface{}) {
 			continue
 		}
 		c.viols[v.key] = &violRec{Key: v.key, What: v.what, Replay: replay(), Size: size, Count: 1}
+		// announce a new key at once (Count 0: the unit result carries the counts), so that it survives if the
+		// worker is killed by what comes next
+		if workerOut != nil {
+			b, _ := json.Marshal(violRec{Key: v.key, What: v.what, Replay: c.viols[v.key].Replay, Size: size, Count: 0})
+			fmt.Fprintf(workerOut, "V %s\n", b)
+			workerOut.Flush()
+		}
 	}
 }
 
